@@ -2170,8 +2170,9 @@ def read_lines(path_or_source, *, include=False, include_dirs=None):
 
 
 def lex_tokens(line):
-    RE_ERROR = re.compile(r'\s*error (.*)')
-    RE_STRING = re.compile(r'\s*string (.*)')
+    # same notion of the keyword as parse_item: any case, any whitespace after it
+    RE_ERROR = re.compile(r'\s*error\s(.*)', re.IGNORECASE)
+    RE_STRING = re.compile(r'\s*string\s(.*)', re.IGNORECASE)
 
     # simplify lexing a single string
     if type(line) == str:
